@@ -9,7 +9,7 @@ Layers (= harness names = second component of violation keys):
   client-copy / client-buffered         AsyncTCPNetworkClient.recv_packet
   client-iter-copy / -buffered          AsyncTCPNetworkClient.iter_received_packets(timeout)
   server-copy / server-buffered         real AsyncTCPNetworkServer, handler does ``request = yield timeout``
-  sync-endpoint-copy / -buffered        blocking StreamEndpoint.recv_packet(timeout) ending in TimeoutError
+  blocking-endpoint-copy / -into            blocking StreamEndpoint.recv_packet(timeout) ending in TimeoutError
 (the thread scheduler does not exist yet; threaded harnesses can be added as further Harness entries built on
 ``_Plan`` / ``_Ledger`` below).
 
@@ -17,10 +17,11 @@ Time is a grid of TICK = 1/64 s.  Data chunks become visible at planned ticks (+
 `d` ticks after the receive started; ties are therefore frequent, and the AlignedFeed coincidence bias additionally
 re-times a pending chunk exactly onto the loop's next timer (fault ``coincide_timer``).
 
-Known defect D5 (DESIGN §5): on every ``recv_into`` based path a chunk that becomes visible in the same loop iteration
-in which the waiter is cancelled is lost.  Input class avoided when ``world.avoid_known``: recv_into based path AND a
-data arrival that can share a virtual instant with a cancellation.  In that mode chunks arrive on even ticks, without
-defer and without alignment, and cancellations fire on odd ticks.
+Known defect D5 (DESIGN §5, fixed in /repo by e60fd44): on every ``recv_into`` based path a chunk that became visible in
+the same loop iteration in which the waiter was cancelled (either order) was lost.  Its key is
+``C10/<layer>/lost-bytes/cancel-same-iteration`` for the layers adapter-recv_into, endpoint-buffered[-struct],
+client-buffered, client-iter-buffered, server-buffered.  Nothing is avoided under ``world.avoid_known``: coinciding
+cancellations are generated on every layer ("revert D5" is the first sensitivity mutant of this property).
 """
 from __future__ import annotations
 
@@ -40,7 +41,7 @@ from easynetwork.servers.async_tcp import AsyncTCPNetworkServer
 from easynetwork.servers.handlers import AsyncStreamRequestHandler
 
 from vsim.backend import SimAsyncIOBackend, sim_sockets
-from vsim.harness import AlignedFeed, sync_engine
+from vsim.harness import AlignedFeed, swarm_selector, sync_engine
 from vsim.loop import run_async
 from vsim.runner import Harness
 from vsim.sock import Delivery, SimNet, patched_clock
@@ -108,22 +109,21 @@ class _Plan:
     def __init__(self, world: World, layer: str, *, into: bool, mode: str, buffered: bool, kinds: tuple[str, ...], sync: bool = False):
         self.world = world
         self.layer = layer
-        self.safe = bool(getattr(world, "avoid_known", True)) and into  # D5 input class excluded
+        self.into = into  # recv_into based path (the D5 family)
         self.codec = _Codec(world, mode, buffered)
         stream = self.codec.stream
         L = len(stream)
         nchunks = 1 + world.choose("nchunks", min(8, L))
         cuts = sorted({1 + world.choose("cut", L - 1) for _ in range(nchunks - 1)}) if L > 1 else []
         bounds = [0, *cuts, L]
-        mul = 2 if self.safe else 1
-        t = world.choose("t0", 5) * mul
+        t = world.choose("t0", 5)
         self.chunks: list[tuple[int, bytes, int]] = []
         for a, b in zip(bounds, bounds[1:]):
-            defer = 0 if (self.safe or sync) else (0, 0, 0, 1, 2)[world.choose("defer", 5)]
+            defer = 0 if sync else (0, 0, 0, 1, 2)[world.choose("defer", 5)]
             self.chunks.append((t, stream[a:b], defer))
-            t += world.choose("gap", 6) * mul
-        self.fin_tick = t + world.choose("fin.gap", 4) * mul
-        self.align_den = 0 if self.safe else (0, 0, 4, 2)[world.choose("align_den", 4)]
+            t += world.choose("gap", 6)
+        self.fin_tick = t + world.choose("fin.gap", 4)
+        self.align_den = (0, 0, 4, 2)[world.choose("align_den", 4)]
         ncancel = world.choose("ncancel", 7)
         self.cancels: list[tuple[str, int]] = [(kinds[world.choose("kind", len(kinds))], world.choose("d", 7)) for _ in range(ncancel)]
         self.pause_den = (0, 0, 3)[world.choose("pause_den", 3)]
@@ -132,26 +132,16 @@ class _Plan:
             world.fault("frag")
         if any(c[0] for c in self.chunks):
             world.fault("delay")
-        world.notes.update(layer=layer, safe=self.safe, stream_len=L, chunks=[(c[0], len(c[1]), c[2]) for c in self.chunks], fin_tick=self.fin_tick, cancels=self.cancels, align_den=self.align_den, sizes=self.sizes)
+        world.notes.update(layer=layer, stream_len=L, chunks=[(c[0], len(c[1]), c[2]) for c in self.chunks], fin_tick=self.fin_tick, cancels=self.cancels, align_den=self.align_den, sizes=self.sizes)
 
     def start_feed(self, feed: AlignedFeed, t0: float) -> None:
-        if self.safe:  # data on even ticks (absolute)
-            t0 = math.ceil(t0 / TICK / 2) * 2 * TICK
         for tick, data, defer in self.chunks:
             feed.plan(t0 + tick * TICK, data, defer)
         feed.plan_fin(t0 + self.fin_tick * TICK)
 
     def delay(self, d: int) -> float:
-        """virtual delay of a cancellation requested `d` ticks from now (safe mode: moved onto the next odd tick)"""
-        now = self.world.now
-        if not self.safe:
-            return d * TICK
-        k = int(math.floor((now + d * TICK) / TICK))
-        if k % 2 == 0:
-            k += 1
-        while k * TICK < now:
-            k += 2
-        return k * TICK - now
+        """virtual delay of a cancellation requested `d` ticks from now"""
+        return d * TICK
 
 
 def _is_subsequence(small: bytes, big: bytes) -> bool:
@@ -207,9 +197,15 @@ class _Ledger:
 
     # ---- observations
     def note_cancel(self, kind: str) -> None:
-        self.cancels.append((self.world.now, kind))
+        now = self.world.now
+        self.cancels.append((now, kind))
         self.world.fault("cancel_at_time")
         self.world.log("cancelled", self.plan.layer, kind)
+        # coverage probe: a chunk became visible at the very instant of this cancellation, d loop iterations before it was noticed
+        it = self.world.counters["loop_iterations"]
+        for t, a, cum in self.feed.log:
+            if t == now and cum >= 0:
+                self.world.probe(f"tie:{kind}:arrival-{min(it - a, 4)}-iterations-before-notice")
 
     def record(self, data: bytes) -> bool:
         """a receive returned `data`; False when the oracle failed (receiver must stop)"""
@@ -416,6 +412,7 @@ def _h_async(world: World, name: str, make_layer: Callable[[], Any], *, into: bo
     async def amain() -> None:
         loop = asyncio.get_running_loop()
         loop.sim_selector.align = feed.on_wait  # type: ignore[attr-defined]
+        swarm_selector(world, loop.sim_selector)  # type: ignore[attr-defined]
         await layer.setup(backend, lib, led)
         plan.start_feed(feed, world.now)
         spawned = 0
@@ -516,6 +513,7 @@ def _h_server(world: World, name: str, mode: str, buffered: bool) -> None:
             feed = box["feed"] = AlignedFeed(world, peer, align_den=plan.align_den)
             led = box["led"] = handler.led = _Ledger(world, plan, feed)
             loop.sim_selector.align = feed.on_wait  # type: ignore[attr-defined]
+            swarm_selector(world, loop.sim_selector)  # type: ignore[attr-defined]
             up = asyncio.Event()
             serve = loop.create_task(server.serve_forever(is_up_event=up), name="c10-serve")
             await up.wait()
@@ -532,7 +530,7 @@ def _h_server(world: World, name: str, mode: str, buffered: bool) -> None:
 
 # ===================================================================================================== blocking layer
 def _h_sync(world: World, name: str, mode: str, buffered: bool) -> None:
-    plan = _Plan(world, name, into=buffered, mode=mode, buffered=buffered, kinds=("timeout",), sync=True)
+    plan = _Plan(world, name, into=False, mode=mode, buffered=buffered, kinds=("timeout",), sync=True)
     net = SimNet(world)
     lib, psock = net.socketpair(delivery_ba=Delivery(frag=5))
     feed = AlignedFeed(world, psock, align_den=plan.align_den, offsets=(0,))
@@ -594,6 +592,6 @@ HARNESSES = [
     _mk_async("client-iter-buffered", lambda: _Client("line", True), True, kinds=("iter",)),
     Harness("server-copy", lambda w: _h_server(w, "server-copy", "line", False)),
     Harness("server-buffered", lambda w: _h_server(w, "server-buffered", "line", True), weight=2),
-    Harness("sync-endpoint-copy", lambda w: _h_sync(w, "sync-endpoint-copy", "line", False)),
-    Harness("sync-endpoint-buffered", lambda w: _h_sync(w, "sync-endpoint-buffered", "struct", True)),
+    Harness("blocking-endpoint-copy", lambda w: _h_sync(w, "blocking-endpoint-copy", "line", False)),
+    Harness("blocking-endpoint-into", lambda w: _h_sync(w, "blocking-endpoint-into", "struct", True)),
 ]
